@@ -6,7 +6,7 @@
    A delayed (in-flight) conditional PUT is an EFlip event placed later in the schedule: its
    precondition is evaluated when it lands. *)
 From Coq Require Import ZArith List Bool Arith.
-Require Import DS.Model.Commit DS.Proofs.CommitProofs.
+Require Import DS.Model.CommitBase DS.Gen.GenCommit DS.Model.Commit DS.Proofs.CommitGenProofs DS.Proofs.CommitProofs.
 Import ListNotations.
 Open Scope Z_scope.
 
@@ -58,6 +58,28 @@ Proof.
   - intros a. apply (fenced_only_by_fence c w e w' a). exact H.
 Qed.
 Print Assumptions C08_stolen_never_success.
+
+(* The conditional-write path of the source, regenerated on every run: the pointer is read ONCE together with its
+   ETag (AReadPtrEtag precedes AValidate and is the only pointer read on the normal path; the translator fails closed
+   if the ETag handed to the commit point has any other origin, or if the validated version is not derived from that
+   read's bytes), and a refused conditional write is the RETRYABLE conflict while any other failure of it is
+   ambiguous -- never success, never a clean failure. *)
+Theorem C08_cas_path_regenerated :
+  model_path true = gen_commit_path_cas
+  /\ (exists pre post, gen_commit_path_cas = pre ++ AReadPtrEtag :: post /\ ~ In AReadPtrEtag pre /\ ~ In AReadPtrEtag post
+        /\ ~ In AValidate pre /\ In AValidate post /\ In AFlip post)
+  /\ (forall atomic, gen_flip_exn true atomic FEPrecondition = XConflict)
+  /\ (forall atomic, gen_flip_exn true atomic FEError = XAmbiguous)
+  /\ gen_tx_on XConflict false = TxRetry.
+Proof.
+  split; [exact model_path_cas_regenerated|]. split.
+  - exists [ALock], [AMaybe ARefresh; AValidate; AStamp; AWriteMeta; AFence; AFlip; ARelease].
+    split; [reflexivity|]. repeat split; simpl; intuition discriminate.
+  - split; [exact flip_refused_is_conflict|]. split.
+    + intro atomic. apply flip_error_possibly_applied_is_ambiguous. left. reflexivity.
+    + reflexivity.
+Qed.
+Print Assumptions C08_cas_path_regenerated.
 
 (* Non-vacuity: CAS storage with a lock that grants everyone.  Both actors validate version 0;
    actor 1 flips first; actor 0's delayed conditional PUT then fails (its ETag names version 0),
